@@ -1,3 +1,4 @@
+import QF.Props.Tie
 import QF.Core.Small
 /-!
 # C19 — ReadSQL: the `Column.Scan` state machine
@@ -11,5 +12,8 @@ theorem scan_text (vs : List Small.Sql.V) (h : ∀ v, v ∈ vs → Small.Sql.isS
     (hne : ∃ v, v ∈ vs ∧ v ≠ Small.Sql.V.null) :
     ∃ c, Small.Sql.scanAll vs = some c ∧ c.kind = Small.Sql.Kind.str ∧ c.strs = List.map Small.Sql.toStrCell vs :=
   Small.Sql.scan_text vs h hne
+
+/-- T1: the functions this property's mirror model follows have today the source text the model was written against. -/
+theorem tie : Tie.sameAll ["sql.Column.Scan", "sql.Column.Null", "sql.Column.String", "sql.Column.Float", "sql.Column.Int", "sql.Column.Bool", "sql.Column.Data", "sql.Insert", "sql.escape", "sql.ReadSQL", "sql.NewArgBuilder", "sql.StringToFloat", "sql.Int64ToBool", "qframe.QFrame.ToSQL"] = true := by decide
 
 end QF.Props.C19
